@@ -164,7 +164,8 @@ class MessagePackDocument(HierDictDocument):
             try:
                 ctx.in_document = msgpack.unpackb(b''.join(ctx.in_string))
             except ValueError as e:
-                raise MessagePackDecodeError(' '.join(e.args))
+                # e.args may hold non-strings (ExtraData, UnicodeDecodeError)
+                raise MessagePackDecodeError(str(e))
 
     def gen_method_request_string(self, ctx):
         """Uses information in context object to return a method_request_string.
@@ -234,7 +235,8 @@ class MessagePackRpc(MessagePackDocument):
 
 
         except ValueError as e:
-            raise MessagePackDecodeError(''.join(e.args))
+            # e.args may hold non-strings (ExtraData, UnicodeDecodeError)
+            raise MessagePackDecodeError(str(e))
 
         try:
             len(ctx.in_document)
